@@ -721,6 +721,36 @@ def duration_as_nanos(ctx):
     return Int(simp(z3.ZeroExt(64, d.fields[0].t) * BV(1000000000, 128) + z3.ZeroExt(96, d.fields[1].t)), 128, False)
 
 
+@contract(r'^(?:std::time::|tokio::time::)?Instant::elapsed$|^(?:std::time::|tokio::time::)?Instant::(?:duration_since|saturating_duration_since)$')
+def instant_elapsed(ctx):
+    """Instant::elapsed(): a fresh reading of the (non-decreasing, whole-second) symbolic clock minus the instant;
+    a.duration_since(b) = a - b (saturating at zero)"""
+    from contracts import instant_now
+    ex, st = ctx.ex, ctx.st
+    a = ex.deref(st, ctx.args[0]) if isinstance(ctx.args[0], Ref) else ctx.args[0]
+    if not (isinstance(a, Agg) and a.name == 'Instant'):
+        return NotImplemented
+    if ctx.callee.endswith('elapsed'):
+        now = instant_now(ctx).fields[0].t
+        then = a.fields[0].t
+    else:
+        b = ex.deref(st, ctx.args[1]) if isinstance(ctx.args[1], Ref) else ctx.args[1]
+        if not (isinstance(b, Agg) and b.name == 'Instant'):
+            return NotImplemented
+        now, then = a.fields[0].t, b.fields[0].t
+    return mk_duration(simp(z3.If(z3.UGE(now, then), now - then, BV(0, 64))))
+
+
+@contract(r'^<(?:std::time::)?Duration as PartialOrd>::(lt|le|gt|ge)$|^<(?:std::time::)?Duration as PartialEq>::(eq|ne)$')
+def duration_cmp(ctx):
+    a, b = _dur(ctx, ctx.args[0]), _dur(ctx, ctx.args[1])
+    x = z3.Concat(a.fields[0].t, a.fields[1].t)
+    y = z3.Concat(b.fields[0].t, b.fields[1].t)
+    op = ctx.callee.rsplit('::', 1)[1]
+    r = {'lt': z3.ULT(x, y), 'le': z3.ULE(x, y), 'gt': z3.UGT(x, y), 'ge': z3.UGE(x, y), 'eq': x == y, 'ne': x != y}[op]
+    return Bool(simp(r))
+
+
 def _atomic(ctx, ref, bits):
     ex, st = ctx.ex, ctx.st
     v = ex.load(st, ref.cell, ref.path)
@@ -908,9 +938,40 @@ def _iter_bound(ex):
     return getattr(ex, 'iter_bound', None) or getattr(ex, 'eq_bound', None) or 16
 
 
+@contract(r' as Iterator>::rev$')
+def iter_rev(ctx):
+    """iter.rev() over an explicit list (vec::IntoIter / slice::Iter): the same elements, last first"""
+    it = ctx.args[0]
+    if isinstance(it, Agg) and it.name in ('vec::IntoIter', 'slice::Iter') and _explicit_elems(ctx, it, by_value=True) is not None:
+        return Agg('iter::Rev', {0: it})
+    return NotImplemented
+
+
 @contract(r' as Iterator>::fold::<.*>$')
 def iter_fold(ctx):
     ex, st = ctx.ex, ctx.st
+    elems = _explicit_elems(ctx, ctx.args[0], by_value=True)
+    if elems is not None:
+        # an explicit list: apply the real closure element by element, in iteration order
+        ccell = st.alloc(ctx.args[2])
+        frontier = [(st, ctx.args[1])]
+        okay = True
+        for e in elems:
+            nxt = []
+            for s, acc in frontier:
+                c2 = type(ctx)(ex, s, ctx.fr, ctx.callee, ctx.args, ctx.dest_ty)
+                rs = apply_callable(c2, Ref(ccell, (), True), [acc, e])
+                if rs is None:
+                    okay = False
+                    break
+                nxt += list(rs)
+            if not okay:
+                break
+            frontier = nxt
+        if okay:
+            return frontier
+        if not elems:
+            return ctx.args[1]
     seq = _as_lazy_seq(ctx, ctx.args[0])
     if seq is None:
         return NotImplemented
@@ -987,6 +1048,9 @@ def _explicit_elems(ctx, itv, by_value=False):
     """element references of an iterator over an explicit list: [(Ref)]"""
     ex, st = ctx.ex, ctx.st
     it = ex.deref1(st, itv) if isinstance(itv, Ref) else itv
+    if isinstance(it, Agg) and it.name == 'iter::Rev':
+        inner = _explicit_elems(ctx, it.fields[0], by_value)
+        return None if inner is None else list(reversed(inner))
     if isinstance(it, Agg) and it.name == 'slice::Windows':
         # windows(n) over an explicit list: each element is a sub-slice of n consecutive items
         src, _loc = seq_loc(ex, st, it.fields[0])
@@ -1526,6 +1590,46 @@ def gmap_ops(ctx):
         newe = Agg('entry', {0: key, 1: Bool(False), 2: val if val is not None else Bool(False)})
     ex.store(st, mref.cell, mref.path, Agg('GMap', {0: SeqV.from_items(entries + [newe], None, 'entries')}))
     return old
+
+
+@contract(r'^HashMap::<\((?:std::string::)?String, (?:std::string::)?String\), .*>::get_mut(?:::<.*>)?$')
+def gmap_get_mut(ctx):
+    """get_mut on the explicit entry list: one successor per entry that may be the live one for this key (a reference INTO
+    that entry, so that writes through it are seen by later look-ups), plus the miss"""
+    from contracts import value_eq
+    ex, st = ctx.ex, ctx.st
+    mref = ctx.args[0]
+    while isinstance(mref, Ref) and isinstance(ex.load(st, mref.cell, mref.path), Ref):
+        mref = ex.load(st, mref.cell, mref.path)
+    m = _gmap(ex, st, mref)
+    if m is None:
+        return NotImplemented
+    key = ex.deref(st, ctx.args[1])
+    entries = m.fields[0].items
+    st.trace.append(('map.get_mut', key))
+    outs = []
+    lives = []
+    later_miss = z3.BoolVal(True)      # no later entry is for this key (later entries shadow earlier ones; a tombstone too)
+    for i in range(len(entries) - 1, -1, -1):
+        e = entries[i]
+        eq = value_eq(ex, st, key, e.fields[0])
+        if eq is None:
+            return NotImplemented
+        live = simp(z3.And(later_miss, eq, e.fields[1].t))
+        lives.append(live)
+        t, _f = ex.branch(st, live)
+        if t:
+            s2 = st.fork()
+            ex.assume(s2, live)
+            ref = Ref(mref.cell, mref.path + (('f', 0, 'entries'), ('i', BV(i, 64)), ('f', 2, 'value')))
+            outs.append((s2, mk_option(ex, ref)))
+        later_miss = simp(z3.And(later_miss, z3.Not(eq)))
+    miss = simp(z3.Not(z3.Or(lives))) if lives else z3.BoolVal(True)
+    t, _f = ex.branch(st, miss)
+    if t:
+        ex.assume(st, miss)
+        outs.append((st, mk_option(ex, None)))
+    return outs
 
 
 @contract(r'^(?:std::option::)?Option::<&.*>::cloned$|^(?:std::option::)?Option::<&.*>::copied$')
